@@ -218,4 +218,58 @@ Section RegProofs.
     split; [exact Hv|]. intros a H. destruct (r1 _ _ H) as [_ Hc]. destruct (h1 _ _ Hc) as [_ Hv'].
     congruence.
   Qed.
+
+  (* ---- a cancelled accept returns by its own steps alone ---- *)
+  Definition la_next (p p' : apc_t) : Prop :=
+    match p with
+    | A0 => p' = ADone \/ p' = A1
+    | A1 => p' = A4 \/ p' = A2
+    | A2 => p' = A2
+    | A3 => p' = A4
+    | A4 => p' = ADone
+    | ADone => p' = ADone
+    end.
+
+  Lemma LA_pc g a :
+    la_next (apc (acc g a)) (apc (acc (lstep g (LA a)) a)) /\
+    acancel (acc (lstep g (LA a)) a) = acancel (acc g a).
+  Proof.
+    unfold lstep. destruct (apc (acc g a)) eqn:Hp; cbn [la_next].
+    - destruct (certs g (hr (asecs a))); unfold set_acc, updn; cbn [acc apc acancel];
+        rewrite Nat.eqb_refl; cbn; auto.
+    - destruct (chans g (hr (asecs a))); unfold set_acc, updn; cbn [acc apc acancel];
+        rewrite Nat.eqb_refl; cbn; auto.
+    - rewrite Hp. auto.
+    - unfold updn; cbn [acc apc acancel]; rewrite Nat.eqb_refl; cbn; auto.
+    - unfold updn; cbn [acc apc acancel]; rewrite Nat.eqb_refl; cbn; auto.
+    - rewrite Hp. auto.
+  Qed.
+
+  Lemma LCancelled_pc g a :
+    acancel (acc g a) = true ->
+    apc (acc (lstep g (LCancelled a)) a) = match apc (acc g a) with A2 => A3 | p => p end /\
+    acancel (acc (lstep g (LCancelled a)) a) = true.
+  Proof.
+    intros Hc. unfold lstep. destruct (apc (acc g a)) eqn:Hp; try (rewrite Hp; auto).
+    rewrite Hc. unfold set_acc, updn; cbn [acc apc acancel]. rewrite Nat.eqb_refl. cbn. auto.
+  Qed.
+
+  (* from any configuration: once its context is cancelled, an accept reaches
+     its return in five of its own steps, whatever the other threads did before *)
+  Theorem cancelled_accept_returns g a :
+    acancel (acc g a) = true ->
+    apc (acc (lrun g [LA a; LA a; LCancelled a; LA a; LA a]) a) = ADone.
+  Proof.
+    intros Hc. unfold lrun. cbn [fold_left].
+    destruct (LA_pc g a) as [P1 Q1]. remember (lstep g (LA a)) as g1 eqn:E1. clear E1.
+    destruct (LA_pc g1 a) as [P2 Q2]. remember (lstep g1 (LA a)) as g2 eqn:E2. clear E2.
+    assert (Hc2 : acancel (acc g2 a) = true) by congruence.
+    destruct (LCancelled_pc g2 a Hc2) as [P3 Q3]. remember (lstep g2 (LCancelled a)) as g3 eqn:E3. clear E3.
+    destruct (LA_pc g3 a) as [P4 _]. remember (lstep g3 (LA a)) as g4 eqn:E4. clear E4.
+    destruct (LA_pc g4 a) as [P5 _]. remember (lstep g4 (LA a)) as g5 eqn:E5. clear E5.
+    destruct (apc (acc g a)); cbn [la_next] in P1; (try destruct P1 as [P1|P1]);
+      rewrite P1 in P2; cbn [la_next] in P2; (try destruct P2 as [P2|P2]);
+      rewrite P2 in P3; cbn in P3; rewrite P3 in P4; cbn [la_next] in P4; (try destruct P4 as [P4|P4]);
+      rewrite P4 in P5; cbn [la_next] in P5; (try destruct P5 as [P5|P5]); assumption.
+  Qed.
 End RegProofs.
